@@ -104,6 +104,9 @@ def body(chk):
     for j, rpc in enumerate((4, 8, 1024)):
         cases.append(dict(level="1.1", images=[("HH", "F1", 3, 2), ("HH", "F2", 9, 2), ("HH", "F3", 5, 2), ("HH", "F4", 14, 2)], rpc=rpc,
                           seed=chk.seed + 940 + j, fss=["vtrace"], sels=[("all",), ("slice", 0, 8, 1), ("slice", 1, 5, 2)], origin="scansar-geometries", special=False))
+    for j, rpc in enumerate((4, 3, 1024)):
+        cases.append(dict(level=("1.5", "1.1")[j % 2], images=[("HH", None, 12, 5), ("HV", None, 15, 4)], rpc=rpc, seed=chk.seed + 920 + j, fss=["vtrace"], close_first=True,
+                          sels=[("slice", 4, 8, 1), ("all",), ("int", 2), ("slice", 0, 12, 5)], origin="loads-after-tree.close()", special=False))
     # request sizes given as BYTE sizes ("600 B", "40 kB", "auto"): refused by an implementation that only takes line counts -- but one that
     # takes them has fixed a number of lines per group (it advertises it), and opening / loading keep to THAT number
     for j, (n, p, size) in enumerate(((14, 5, "600 B"), (14, 5, "70 B"), (30, 2000, "40 kB"), (30, 2000, "42 kB"), (12, 3, "auto"), (30, 2000, "1 MiB"))):
